@@ -326,6 +326,11 @@ def run_parallel(ctx, modname, fname, cases, nproc=None, chunk=None):
         import importlib
         getattr(importlib.import_module(modname), fname)(ctx, cases)
         return
+    try:        # import the library (and load the catalogue) once, before forking
+        import optiland.optic, optiland.materials  # noqa
+        optiland.materials.Material._load_dataframe()
+    except Exception:
+        pass
     chunk = chunk or max(4, min(400, len(cases) // (nproc * 6) + 1))
     order = list(range(len(cases)))
     random.Random(ctx.seed).shuffle(order)          # balance expensive cases (catalogue look-ups) over workers
